@@ -51,11 +51,14 @@ def make_plan(seed: int, tier: str, index: int) -> dict[str, Any]:
     doc["unknown"] = []
     want_tempos = g.choice([3, 3, 4, 5, 6, 8, 10])
     huge = index % 100 == 50
+    recycle = index % 20 == 10 and not huge
+    if recycle:
+        want_tempos = g.choice([33, 34, 40, 48, 64])
     if huge:
         # a chart tempo-mapped beat by beat: the lookup must not depend on how far the hint is
         # from the governing event (deep recursion, quadratic scans, integer width ...)
         want_tempos = g.choice([1100, 1600, 2600])
-    while len(doc["tempos"]) < want_tempos and (huge or g.random() < 0.9):
+    while len(doc["tempos"]) < want_tempos and (huge or recycle or g.random() < 0.9):
         last = doc["tempos"][-1][0]
         doc["tempos"].append([last + g.choice([1, 2, doc["resolution"], 3 * doc["resolution"] + 1]),
                               g.choice(gen.BPM_POOL)])
@@ -78,8 +81,21 @@ def make_plan(seed: int, tier: str, index: int) -> dict[str, Any]:
         schedule: dict[str, Any] = {"mode": "sequential", "seed": s.getrandbits(32), "p_boundary": 0.5}
         if n_clients > 1 and s.random() < 0.8:
             schedule = {"mode": "geometric", "seed": s.getrandbits(32), "gap": s.choice([2, 3, 5, 10, 40])}
-        return {"property": PROP, "seed": seed, "part": "session", "text": gen.render(doc),
+        plan = {"property": PROP, "seed": seed, "part": "session", "text": gen.render(doc),
                 "clients": clients, "schedule": schedule, "fresh_map": p.random() < 0.5}
+        if recycle:
+            # history: ANOTHER chart with as many tempo events at other ticks is loaded, asked far
+            # look-ups and dropped before this chart is loaded (swept over allocator shifts)
+            d2 = copy.deepcopy(doc)
+            t2 = 0
+            for i in range(1, len(d2["tempos"])):
+                t2 += g.choice([1, 3, d2["resolution"], 2 * d2["resolution"] + 1])
+                d2["tempos"][i][0] = t2
+            # (everything else stays as it is: the two charts allocate alike, only the tempo
+            # ticks differ)
+            plan["recycle_text"] = gen.render(d2)
+            plan["fresh_map"] = False
+        return plan
     # (b) record-order faults on one or more section bodies
     secs = gen.sections(doc)
     variants = [{"fault": "none", "text": gen.render_sections(secs)}]
@@ -146,6 +162,49 @@ def _execute_session(plan: dict[str, Any]) -> dict[str, Any]:
         chart = world.parse_text(plan["text"])
     except Exception as e:  # noqa: BLE001
         raise Discard("chart-rejected:" + type(e).__name__) from e
+    violations: list[dict[str, Any]] = []
+    if plan.get("recycle_text"):
+        for j in (0, 1, 2, 3, 4, 5, 6, 7, 8, 9, 11, 13, 16, 20):
+            held = []
+            for _gen in range(1 + j % 3):  # one to three generations alive at once, then all dropped
+                try:
+                    a = world.parse_text(plan["recycle_text"])
+                except Exception as e:  # noqa: BLE001
+                    raise Discard("recycle-chart-rejected:" + type(e).__name__) from e
+                abe = a.sync_track.bpm_events
+                far = abe[len(abe) - 1].tick
+                for t in (far, far + 5, far // 2, 1):
+                    abe.timestamp_at_tick(t)
+                    abe.timestamp_at_tick_no_optimize_return(t)
+                held.append(a)
+                del abe, a
+            del held
+            shift = world.heap_shift(j)
+            try:
+                chart = world.parse_text(plan["text"])
+            except Exception as e:  # noqa: BLE001 - it parsed a moment ago, at the top of this run
+                violations.append({
+                    "sig": f"C11/session/parse-raises/after-another-chart-was-dropped/{type(e).__name__}",
+                    "detail": f"another chart was loaded, queried and dropped; then this chart, which "
+                              f"parsed a moment ago, raised {exc_token(e)} (allocator shift {j})"})
+                break
+            cbe = chart.sync_track.bpm_events
+            cticks = [e.tick for e in cbe]
+            for t in sorted({cticks[-1], cticks[-1] + 9, cticks[len(cticks) // 2], cticks[len(cticks) // 3] + 1, 1}):
+                try:
+                    ts_, idx_ = cbe.timestamp_at_tick(t)
+                    got_: Any = idx_
+                except BaseException as e:  # noqa: BLE001
+                    got_ = "raised " + type(e).__name__
+                if got_ != governing(cticks, t) and not violations:
+                    violations.append({
+                        "sig": "C11/session/wrong-index/after-another-chart-was-dropped",
+                        "detail": f"another chart with {len(cticks)} tempo events was loaded, queried and "
+                                  f"dropped; then this chart: un-hinted query for tick {t} gave index "
+                                  f"{got_}, governing index {governing(cticks, t)} (allocator shift {j})"})
+            del shift
+            if violations:
+                break
     be = chart.sync_track.bpm_events
     if plan.get("fresh_map"):
         # a tempo map nobody has queried yet (parsing already queried the chart's own map for
@@ -158,7 +217,6 @@ def _execute_session(plan: dict[str, Any]) -> dict[str, Any]:
             pass
     ticks = [e.tick for e in be]
     n = len(ticks)
-    violations: list[dict[str, Any]] = []
     nontrivial = []
     counters = {"hint_gt0": 0, "expected_valueerror": 0, "returned": 0}
     n_clients = len(plan["clients"])
@@ -275,7 +333,8 @@ def _execute_session(plan: dict[str, Any]) -> dict[str, Any]:
         "ops": n_ops, "switches": sched.switches, "mid_op_switches": sched.mid_op_switches,
         "interleaving": sched.interleaving.hexdigest()[:32] if n_clients > 1 else None,
         "sched_mode": sched.mode,
-        "sub_batch": "session/fresh-map" if plan.get("fresh_map") else "session/parsed-map",
+        "sub_batch": ("session/fresh-map" if plan.get("fresh_map") else "session/parsed-map")
+        + ("/after-dropped-chart" if plan.get("recycle_text") else ""),
         "sample": {"part": "session", "tempo_ticks": ticks, "clients": [c[:5] for c in plan["clients"]],
                    "schedule": plan["schedule"]},
         "harness_error": harness_error, "explicit_schedule": sched.explicit_schedule(),
